@@ -13,7 +13,7 @@ use std::path::Path;
 use std::process::{Command, Stdio};
 use std::time::{Duration, UNIX_EPOCH};
 
-const NAMES: &[&str] = &["a", "b.txt", "sp ace", "q'uo", "d\"q", "back\\sl", "$dol", "st*r", "qu?", "[br]", "tab\there", "-dash", ".hid", "ünï", "new\nline", "x.tmp"];
+const NAMES: &[&str] = &["a", "b.txt", "sp ace", "q'uo", "d\"q", "back\\sl", "$dol", "st*r", "qu?", "[br]", "tab\there", "-dash", ".hid", "ünï", "new\nline", "x.tmp", "C:\\temp\\new", "o\\101x\\x41", "tr\\", "b\\'q", "u\\u00e9\\cA"];
 
 fn esc(s: &str) -> String {
     s.replace('\\', "\\\\").replace('\'', "\\'")
